@@ -40,17 +40,12 @@ def contracts():
 """, rewrites=[("T-ITER", r"(?P<v>\w+)\.bytes\(\)\.all\(\|b\| b\.is_ascii_digit\(\)\)", r"crate::vparse::all_ascii_digit(&\g<v>)", 2),
                ("T-PARSE", r"(?P<v>\w+)\s*\.parse::<u32>\(\)", r"crate::vparse::parse_u32(&\g<v>)", 2)],
         )
-    # T-CLOSURE: a pure projection closure gets its parameter type and `ensures result == body` (derived from its own text)
-    c["set_owner"].rewrites += [
-
-        ("T-CLOSURE", r"user\.map\(\|(\w+)\| (\w+\.\w+)\)", r"user.map(|\1: nix::unistd::User| -> (r__: nix::unistd::Uid) ensures r__ == \2 { \2 })"),
-        ("T-CLOSURE", r"grp\.map\(\|(\w+)\| (\w+\.\w+)\)", r"grp.map(|\1: nix::unistd::Group| -> (r__: nix::unistd::Gid) ensures r__ == \2 { \2 })"),
-    ]
+    # (the two projection closures `|u| u.uid` / `|g| g.gid` are annotated by the generic rule T-CLOSURE)
     c["write_file"] = FnSpec(ret="r", ghost=True, sig="""
     ensures """ + FS_FRAME + """
         // C02: whatever the file held before, a successful write leaves exactly the new content
         r is Ok ==> final(w).fs.files.contains_key(file_path_spec(*fm, file_type))
-            && final(w).fs.files[file_path_spec(*fm, file_type)] == data@, //@C02.exact_content,C07.success_is_reported_only_when_the_file_is_installed,C03.what_is_reported_written_is_written,C01.the_key_that_is_stored_is_the_key_of_the_csr
+            && final(w).fs.files[file_path_spec(*fm, file_type)] == data@, //@C02.exact_content,C07.success_is_reported_only_when_the_file_is_installed,C03.what_is_reported_written_is_written,C01.the_key_that_is_stored_is_the_key_of_the_csr,C11.what_is_reported_written_is_written
         // nothing but the target file is touched
         others_untouched(old(w).fs, final(w).fs, file_path_spec(*fm, file_type)), //@C02.other_files_untouched
         // C13: a file that did not exist is created with the mode configured for its type (0600 for accounts)
@@ -69,7 +64,7 @@ def contracts():
     proof {
         let p = file_path_spec(*fm, file_type);
         // (stated before the trace below: a failed proof step is assumed by the verifier, and must not hide this clause)
-        assert(w.fs.files.contains_key(p) && w.fs.files[p] == data@); //@C02.exact_content,C07.success_is_reported_only_when_the_file_is_installed,C03.what_is_reported_written_is_written,C01.the_key_that_is_stored_is_the_key_of_the_csr
+        assert(w.fs.files.contains_key(p) && w.fs.files[p] == data@); //@C02.exact_content,C07.success_is_reported_only_when_the_file_is_installed,C03.what_is_reported_written_is_written,C01.the_key_that_is_stored_is_the_key_of_the_csr,C11.what_is_reported_written_is_written
         assert(w.fs.events =~= old(w).fs.events + write_trace(*fm, file_type, !old(w).fs.files.contains_key(p))); //@C10.file_hook_bracket,C13.chown_after_write
     }""")])
     for name, ft in [("set_account_data", "Account"), ("write_certificate", "Certificate")]:
@@ -131,6 +126,7 @@ def build():
     u.ghost_call("write", method=True)
     u.ghost_call("read_to_end", method=True)
     u.ghost_call("chown", quals=("unistd",))
+    u.ghost_call("fchownat", quals=("unistd",))
     u.ghost_call("call", quals=("hooks",))
     u.take("acmed/src/main.rs", "DEFAULT_ACCOUNT_FILE_MODE", "")
     u.drop_derives = {"Debug", "Eq", "Hash", "PartialEq", "Clone"}
@@ -291,7 +287,7 @@ pub open spec fn hook_ev(fm: FileManager, t: FileType, ty: HookType) -> FsEvent 
 }
 // the kind of an effect (which hook type / open / write / chown), without its details
 pub open spec fn ev_kind(e: FsEvent) -> int {
-    match e { FsEvent::Hook { ty, .. } => ty, FsEvent::Open { .. } => 100, FsEvent::Write { .. } => 101, FsEvent::Chown { .. } => 102, FsEvent::Rename { .. } => 103, FsEvent::Remove { .. } => 104 }
+    match e { FsEvent::Hook { ty, .. } => ty, FsEvent::Open { .. } => 100, FsEvent::Write { .. } => 101, FsEvent::Chown { .. } => 102, FsEvent::Rename { .. } => 103, FsEvent::Remove { .. } => 104, FsEvent::Lchown { .. } => 105 }
 }
 // b continues a, and what it adds is, kind by kind, a beginning of t
 pub open spec fn adds_a_beginning_of(a: Seq<FsEvent>, b: Seq<FsEvent>, t: Seq<FsEvent>) -> bool {
